@@ -149,16 +149,29 @@ struct Ctx {
         // an uncancellable resolve keeps the old service busy beyond its last completion: extend to the resolve's end
         for (auto& [g, iv] : gen_iv)
             for (auto& r : s.resolver.log) if (r.seq <= iv.second && r.seq >= iv.first && r.seq_done > iv.second) iv.second = r.seq_done;
+        // every client service object owns one resolver object: [first resolve started, last resolve finished] of each
+        // is an exact lower bound of that service's activity (a wound-down service may start one more resolution when
+        // its last one finally completes: resolve_op does not look at is_open())
+        for (auto& r : s.resolver.log) {
+            if (r.inst < 0) continue;
+            uint64_t end = r.seq_done ? r.seq_done : UINT64_MAX;
+            auto it = inst_iv.find(r.inst);
+            if (it == inst_iv.end()) inst_iv[r.inst] = {r.seq, end};
+            else { it->second.first = std::min(it->second.first, r.seq); it->second.second = std::max(it->second.second, end); }
+        }
     }
+    std::map<int, std::pair<uint64_t, uint64_t>> inst_iv;
     // is some service generation other than `g` active at seq x?
     bool other_gen_active(int g, uint64_t x) const {
         for (auto& [k, iv] : gen_iv) if (k != g && iv.first <= x && iv.second >= x) return true;
-        return false;
+        int n = 0; for (auto& [k, iv] : inst_iv) if (iv.first <= x && iv.second >= x) ++n;
+        return n >= 2;
     }
     bool multi_gen_active(uint64_t a, uint64_t b) const {
         int n = 0;
         for (auto& [g, iv] : gen_iv) if (iv.first <= b && iv.second >= a) ++n;
-        return n >= 2;
+        int m = 0; for (auto& [k, iv] : inst_iv) if (iv.first <= b && iv.second >= a) ++m;
+        return n >= 2 || m >= 2;
     }
     ns_t stall_between(uint64_t a, uint64_t b) const {
         ns_t t = 0; for (auto& m : s.marks) if (m.kind == MarkKind::stall && m.seq >= a && m.seq <= b) t += m.arg; return t;
